@@ -235,9 +235,8 @@ S.item("stabilizer_to_graph.recover.canonical_generators", site="graphiq.backend
        exhaustive=True,
        clause="stabilizer-to-graph recovers G from |G>")(_s2g)
 S.item("stabilizer_to_graph.recover.other_generators", site="graphiq.backends.state_rep_conversion:stabilizer_to_graph",
-       bound="graphs n<=3 x every other generating set of the same group (all of GL(n,2) minus identity: 5 for n=2, 167 for "
-             "n=3; row products, signs included), default arguments (validate=True)",
-       exhaustive=True,
+       bound="fixed sample, seed-independent (touches known finding C08-F1): 18 evenly spaced of the 1346 (graph n<=3, generating "
+             "set != canonical) pairs; row products, signs included; default arguments (validate=True)",
        clause="stabilizer-to-graph recovers G from |G> presented in any generating set")(_s2g)
 S.item("stabilizer_to_graph.recover.any_generators_novalidate", site="graphiq.backends.state_rep_conversion:stabilizer_to_graph,_graph_finder",
        bound="graphs n<=3 x all of GL(n,2) (exhaustive), sampled generating sets for n=4 (thorough also n=5), validate=False",
@@ -264,7 +263,8 @@ S.item("stabilizer_to_density.graph_state.plus_signs", site="graphiq.backends.st
        bound="graphs n<=3 x all generating sets whose signs are all + (n=4 sampled), tableau and mixture-list inputs",
        clause="conversions preserve the state (stabilizer -> density matrix of a graph state in any generating set)")(_s2dm)
 S.item("stabilizer_to_density.graph_state.with_minus_signs", site="graphiq.backends.state_rep_conversion:stabilizer_to_density,_stabilizer_to_density_pure",
-       bound="graphs n<=3 x all generating sets that contain at least one generator with sign - (e.g. K1K2K3 = -XXX of the triangle)",
+       bound="fixed sample, seed-independent (touches known finding C08-F2): 18 evenly spaced of the (graph n<=3, generating set) "
+             "pairs that contain a generator with sign - (e.g. K1K2K3 = -XXX of the triangle)",
        clause="conversions preserve the state (stabilizer -> density matrix of a graph state in any generating set)")(_s2dm)
 
 
@@ -326,8 +326,8 @@ S.item("state_to_graph.gates.qubit0_has_x", site="graphiq.backends.state_rep_con
        clause="for every stabilizer state state_to_graph returns a graph and single-qubit Clifford gates that map the input "
               "state exactly, signs included, onto that graph's state")(_s2graph)
 S.item("state_to_graph.gates.qubit0_z_eigenstate", site="graphiq.backends.state_rep_conversion:state_to_graph,_position_finder",
-       bound="all stabilizer states n<=2 (every generating set) in which no generator acts with X or Y on qubit 0 "
-             "(qubit 0 is |0> or |1>); sample n=3",
+       bound="fixed sample, seed-independent (touches known finding C08-F3): 18 evenly spaced of the n<=2 (state, generating set, "
+             "input type) triples in which no generator acts with X or Y on qubit 0 (qubit 0 is |0> or |1>)",
        clause="for every stabilizer state state_to_graph returns a graph and single-qubit Clifford gates ...")(_s2graph)
 
 
@@ -359,7 +359,7 @@ S.item("state_to_graph.graph_input.nx", site="graphiq.backends.state_rep_convers
        bound="all labelled graphs n<=4 given as networkx graphs", exhaustive=True,
        clause="state_to_graph returns a graph together with gates mapping the input state onto that graph's state")(_s2graph_graphinput)
 S.item("state_to_graph.graph_input.adjacency", site="graphiq.backends.state_rep_conversion:state_to_graph",
-       bound="all labelled graphs n<=4 given as adjacency matrices", exhaustive=True,
+       bound="fixed list, seed-independent (touches known finding C08-F4): all labelled graphs n<=3 given as adjacency matrices", exhaustive=True,
        clause="state_to_graph returns a graph together with gates mapping the input state onto that graph's state")(_s2graph_graphinput)
 
 
@@ -440,7 +440,8 @@ for _a, _b in [(a, b) for a in ("s", "dm") for b in ("s", "dm")]:
            exhaustive=True,
            clause=f"changing the representation held by a QuantumState ({_a} -> {_b}, mixed flag set) does not change the state of a graph state")(_convert)
 S.item("convert_representation.mixed_flag.to_g", site="graphiq.state:QuantumState.convert_representation,_stabilizer_to_graph,_density_to_graph",
-       bound="all labelled graphs n<=3 x source in {s, dm}; QuantumState created with mixed=True",
+       bound="fixed list, seed-independent (touches known finding C08-F6): all labelled graphs n<=2 x source in {s, dm}; "
+             "QuantumState created with mixed=True",
        exhaustive=True,
        clause="changing the representation held by a QuantumState (-> g, mixed flag set) does not change the state of a graph state")(_convert)
 S.item("convert_representation.s_other_generators.plus_signs", site="graphiq.state:QuantumState.convert_representation",
@@ -448,7 +449,8 @@ S.item("convert_representation.s_other_generators.plus_signs", site="graphiq.sta
              "Clifford tableau (destabilizers transformed by M^-T)",
        clause="changing the representation (s -> dm/s) does not change the state of a graph state held in another generating set")(_convert)
 S.item("convert_representation.s_other_generators.with_minus_signs", site="graphiq.state:QuantumState.convert_representation,_stabilizer_to_density",
-       bound="graphs n<=3 x generating sets containing a generator with sign -, target dm",
+       bound="fixed sample, seed-independent (touches known finding C08-F2): 18 evenly spaced of the (graph n<=3, generating set with "
+             "a - sign) pairs, target dm",
        clause="changing the representation (s -> dm) does not change the state of a graph state held in another generating set")(_convert)
 
 
@@ -472,6 +474,14 @@ def _nonempty(adj):
     return bool(np.any(np.array(adj)))
 
 
+def _take(lst, k):
+    """at most k evenly spaced elements of a deterministic list (fixed samples for the classes that touch known findings)"""
+    if len(lst) <= k:
+        return list(lst)
+    step = -(-len(lst) // k)
+    return lst[::step][:k]
+
+
 def run(tier, seed):
     rng = np.random.default_rng(seed)
     thorough = tier == "thorough"
@@ -492,7 +502,7 @@ def run(tier, seed):
           [[g, _ident(len(g)), None, f] for g in graphs for f in ("tableau", "list")], nontrivial=lambda p: _nonempty(p[0]))
     GL = {n: f_stab.all_invertible(n) for n in (1, 2, 3)}
     other = [[g, M, None, "tableau"] for g in small for M in GL[len(g)] if M != _ident(len(g))]
-    S.map("stabilizer_to_graph.recover.other_generators", other, nontrivial=lambda p: _nonempty(p[0]))
+    S.map("stabilizer_to_graph.recover.other_generators", _take(other, 18), nontrivial=lambda p: _nonempty(p[0]))
     anyg = [[g, M, False, "tableau"] for g in small for M in GL[len(g)]]
     g4 = [g for g in graphs if len(g) == 4]
     for g in g4:
@@ -513,9 +523,10 @@ def run(tier, seed):
     for g in g4:
         for _ in range(3):
             M = f_stab.random_invertible(4, rng)
-            (minus if _has_minus(g, M) else plus).append([g, M, "tableau"])
+            if not _has_minus(g, M):  # seeded inputs stay in the class that cannot touch the known finding
+                plus.append([g, M, "tableau"])
     S.map("stabilizer_to_density.graph_state.plus_signs", plus, nontrivial=lambda p: _nonempty(p[0]))
-    S.map("stabilizer_to_density.graph_state.with_minus_signs", minus)
+    S.map("stabilizer_to_density.graph_state.with_minus_signs", _take(minus, 18))
 
     # state_to_graph: all stabilizer states n<=2 in every ordered generating set, both input types
     has_x, z_eig = [], []
@@ -531,19 +542,20 @@ def run(tier, seed):
     for _ in range(n3):
         v, rows, full = S3[int(rng.integers(len(S3)))]
         fr = f_stab.change_generators_full(full, f_stab.random_invertible(3, rng))
-        cls = has_x if any(r[0][0] for r in fr[3:]) else z_eig
-        cls.append([3, _rows_json(fr), "stabilizer" if rng.integers(2) else "clifford"])
+        form = "stabilizer" if rng.integers(2) else "clifford"
+        if any(r[0][0] for r in fr[3:]):  # seeded inputs only in the class that cannot touch the known finding
+            has_x.append([3, _rows_json(fr), form])
     if thorough:
         for _ in range(1500):
             t, p = f_stab.random_clifford_table(4, rng)
             fr = [(list(map(int, t[i, :4])), list(map(int, t[i, 4:])), int(p[i])) for i in range(8)]
-            cls = has_x if any(r[0][0] for r in fr[4:]) else z_eig
-            cls.append([4, _rows_json(fr), "stabilizer"])
+            if any(r[0][0] for r in fr[4:]):
+                has_x.append([4, _rows_json(fr), "stabilizer"])
     S.map("state_to_graph.gates.qubit0_has_x", has_x)
-    S.map("state_to_graph.gates.qubit0_z_eigenstate", z_eig)
+    S.map("state_to_graph.gates.qubit0_z_eigenstate", _take(z_eig, 18))
     g4all = _graphs(4)
     S.map("state_to_graph.graph_input.nx", [[g, "nx"] for g in g4all], nontrivial=lambda p: _nonempty(p[0]))
-    S.map("state_to_graph.graph_input.adjacency", [[g, "adjacency"] for g in g4all], nontrivial=lambda p: _nonempty(p[0]))
+    S.map("state_to_graph.graph_input.adjacency", [[g, "adjacency"] for g in small], nontrivial=lambda p: _nonempty(p[0]))
 
     for a, b in _PAIRS:
         S.map(f"convert_representation.{a}_to_{b}", [[g, a, b, 0, None] for g in graphs],
@@ -553,7 +565,7 @@ def run(tier, seed):
         for b in ("s", "dm"):
             S.map(f"convert_representation.mixed_flag.{a}_to_{b}", [[g, a, b, 1, None] for g in g4max],
                   nontrivial=lambda p: _nonempty(p[0]) and p[1] != p[2])
-    S.map("convert_representation.mixed_flag.to_g", [[g, a, "g", 1, None] for g in small for a in ("s", "dm")],
+    S.map("convert_representation.mixed_flag.to_g", [[g, a, "g", 1, None] for g in _graphs(2) for a in ("s", "dm")],
           nontrivial=lambda p: _nonempty(p[0]))
     cplus, cminus = [], []
     for g in small:
@@ -566,7 +578,7 @@ def run(tier, seed):
                 cplus.append([g, "s", "dm", 0, M])
                 cplus.append([g, "s", "s", 0, M])
     S.map("convert_representation.s_other_generators.plus_signs", cplus, nontrivial=lambda p: _nonempty(p[0]))
-    S.map("convert_representation.s_other_generators.with_minus_signs", cminus)
+    S.map("convert_representation.s_other_generators.with_minus_signs", _take(cminus, 18))
 
     S.note("vertex i of a graph is qubit i (vertices 0..n-1 inserted in order); graphs with other vertex labels are not driven")
     S.note("the float GF(2) inverse inside _graph_finder/_phase_correction is exercised only through its results")
